@@ -303,9 +303,46 @@ def derive_seed(ctx: Ctx, part: str, batch: int) -> int:
     return int(h[:15], 16)
 
 
+def _drive(gen) -> bool:
+    while True:
+        try:
+            next(gen)
+        except StopIteration as stop:
+            return bool(stop.value)
+
+
 def run_given(ctx: Ctx, part: str, strategy, check_fn: Callable[[dict, Ctx], None],
               n_examples: int, batch: int = 100) -> bool:
-    """Drive ``check_fn`` over ``n_examples`` cases drawn from ``strategy``.
+    """One part from start to end (see given_part)."""
+    return _drive(given_part(ctx, part, strategy, check_fn, n_examples, batch))
+
+
+def run_machine(ctx: Ctx, part: str, machine_factory: Callable[[], type], n_examples: int,
+                steps: int, batch: int = 20) -> bool:
+    return _drive(machine_part(ctx, part, machine_factory, n_examples, steps, batch))
+
+
+def run_parts(ctx: Ctx, parts) -> bool:
+    """Round-robin over several parts (generators made by given_part / machine_part): one batch of each in turn, until
+    all are done, one reports a violation (-> False), or the time budget is used up.  On a loaded machine every part
+    then loses the same share of its cases, instead of the parts registered last never running at all."""
+    live = list(parts)
+    while live:
+        for g in list(live):
+            try:
+                next(g)
+            except StopIteration as stop:
+                live.remove(g)
+                if not stop.value:
+                    for other in live:
+                        other.close()
+                    return False
+    return True
+
+
+def given_part(ctx: Ctx, part: str, strategy, check_fn: Callable[[dict, Ctx], None],
+               n_examples: int, batch: int = 100):
+    """Generator: drives ``check_fn`` over ``n_examples`` cases drawn from ``strategy``, yielding after every batch.
 
     Returns False when a violation was found (and recorded).  Runs in batches
     with distinct derived seeds so that the time budget can stop the run
@@ -357,12 +394,13 @@ def run_given(ctx: Ctx, part: str, strategy, check_fn: Callable[[dict, Ctx], Non
             raise HarnessError(f"{part}: {type(e).__name__}: {e}\n{traceback.format_exc()}") from e
         done += n
         b += 1
+        yield
     return True
 
 
-def run_machine(ctx: Ctx, part: str, machine_factory: Callable[[], type], n_examples: int,
-                steps: int, batch: int = 20) -> bool:
-    """Drive a RuleBasedStateMachine.  The machine must call ``ctx.note_failure``
+def machine_part(ctx: Ctx, part: str, machine_factory: Callable[[], type], n_examples: int,
+                 steps: int, batch: int = 20):
+    """Generator (one batch per step): drive a RuleBasedStateMachine.  The machine must call ``ctx.note_failure``
     with its recorded history before raising Violation (see ``HistoryMachine``)."""
     import hypothesis
     from hypothesis.stateful import run_state_machine_as_test
@@ -388,12 +426,22 @@ def run_machine(ctx: Ctx, part: str, machine_factory: Callable[[], type], n_exam
             raise HarnessError(f"{part}: {type(e).__name__}: {e}\n{traceback.format_exc()}") from e
         done += n
         b += 1
+        yield
     return True
 
 
 def run_enumerated(ctx: Ctx, part: str, items, check_fn: Callable[[dict, Ctx], None]) -> bool:
     """Walk an explicit iterable of cases (small to large); first failure is minimal."""
+    return _drive(enumerated_part(ctx, part, items, check_fn, every=10**9))
+
+
+def enumerated_part(ctx: Ctx, part: str, items, check_fn: Callable[[dict, Ctx], None], every: int = 50):
+    """Generator form of run_enumerated for run_parts: yields after every ``every`` cases."""
+    k = 0
     for case in items:
+        k += 1
+        if k % every == 0:
+            yield
         if ctx.expired():
             ctx.notes.append(f"{part}: budget exhausted during enumeration")
             return True
